@@ -107,6 +107,8 @@ type DataSpec struct {
 	// Big: 0 ordinary sizes; 1: 20 names and a 700-byte title; 2: a 6000-byte title (sizes beyond the
 	// small buffers and inline capacities ordinary examples stay under)
 	Big int
+	// Nil: Execute is given no data at all (nil): '.' is nothing
+	Nil bool
 }
 
 func GenData(t *sim.Tape, tag int) DataSpec {
@@ -155,6 +157,9 @@ func (d DataSpec) BuildRoot() *Root {
 
 // Data returns the value passed to Execute as data.
 func (d DataSpec) Data() interface{} {
+	if d.Nil {
+		return nil
+	}
 	r := d.BuildRoot()
 	if d.Ptr {
 		return r
